@@ -434,4 +434,8 @@ def newton_batch(ctx):
     return out
 
 
-RULES = [no_stale, newton_batch, pure, inverted_fresh, no_param_mutation, reset_first, rng_sites]
+def derived_sync_rule(ctx):
+    from .common import derived_sync
+    return derived_sync(ctx, 'DERIVED-SYNC')
+
+RULES = [derived_sync_rule, no_stale, newton_batch, pure, inverted_fresh, no_param_mutation, reset_first, rng_sites]
